@@ -355,8 +355,9 @@ Proof.
       rewrite E. apply (Inv2_transfer b); auto. apply (views_same_transfer b); auto. }
   set (v := if p_kind p =? kGet then val else p_val p).
   set (lr := mkLR i (p_kind p) (p_inner p) rk rev v (p_key p) t).
-  set (b1 := b <| b_now := t |> <| b_rets ::= fun m => aset m (p_gid p) lr |>).
+  set (b1 := b <| b_now := t |> <| b_rets ::= fun m => aset m (p_gid p) lr |> <| b_done ::= cons op |>).
   cbn in G. rewrite Hop in G. apply app_nil_l2 in G. destruct G as [Gi G]. apply pwhen_nil in Gi.
+  apply app_nil_l2 in G. destruct G as [_ G].
   apply Bool.negb_false_iff in Gi. apply Z.eqb_eq in Gi.
   (* facts about a successful write that returns *)
   assert (Hw : (p_kind p = kCreate \/ p_kind p = kUpdate) -> rk = oOk ->
